@@ -125,6 +125,7 @@ def run(ctx):
             ctx.sample(corr_case[-1])
     ctx.coverage["pairs_in_undecided_band_removed"] = skipped_near
     # ---- CLI report: maxima equal the maxima over the listed atom clashes; CSV lists the same clashes
+    rep_expr, rep_exp, rep_case = [], [], []
     cli_runs = 0
     d = os.path.join(BUILD, "c17")
     os.makedirs(d, exist_ok=True)
@@ -138,6 +139,7 @@ def run(ctx):
             cli_runs += 1
             ctx.count(("cli", name, tuple(flags)), True, "cli")
             why = check_report(r.stdout, csvp)
+            _report_cases(r.stdout, {"file": name, "flags": flags}, rep_expr, rep_exp, rep_case)
             if r.returncode != 0:
                 why = why or f"clashfinder exited with {r.returncode}: {r.stderr[-300:]}"
             if why:
@@ -155,6 +157,7 @@ def run(ctx):
                        env=dict(os.environ, PYTHONPATH="/repo/src", LOGLEVEL="CRITICAL"))
     ctx.count(("cli", "synth"), True, "cli")
     why = check_report(r.stdout, None)
+    _report_cases(r.stdout, {"file": "synthetic two-chain file", "flags": ["--ignore-occupancy"]}, rep_expr, rep_exp, rep_case)
     if why or "A.A1" not in r.stdout:
         ctx.violation(why or "synthetic two-chain file: no report", {"file": open(synth).read(), "flags": ["--ignore-occupancy"], "stdout": r.stdout})
     ctx.coverage["cli_runs"] = cli_runs + 1
@@ -166,8 +169,57 @@ def run(ctx):
     for i in bad[:10]:
         ctx.violation("the clash list differs from the pairwise definition (Coq model, O(n^2))",
                       {"case": corr_case[i], "implementation_counts": corr_case[i]["clashes_per_option_set"], "correspondence": "Run.RGeo.run_clashes_all"})
+    bad, err = ctx.coq_mismatches("rep", IMPORTS, rep_expr, rep_exp, shard=4, timeout=900)
+    if err:
+        ctx.violation("report cases failed to evaluate", {"error": err}, has_input=False)
+    for i in bad[:10]:
+        ctx.violation("the printed maxima differ from the model's running maxima over the listed clashes (Model.Clash.group_max)",
+                      {"case": rep_case[i], "printed": rep_exp[i][:20], "correspondence": "Run.RGeo.run_group_max"}, has_input=False)
+    ctx.coverage["report_aggregations_compared"] = len(rep_expr)
     ctx.coverage["structures_compared"] = len(corr_expr)
     ctx.coverage["option_sets"] = 32
+
+
+def _parse_report(stdout):
+    chain_max, res_max, cur_chain, cur_res = {}, {}, None, None
+    atoms = []
+    for line in stdout.splitlines():
+        m = re.match(r"Clashes found (?:in chain (\S+)|between chains (\S+) and (\S+)) with maximum occupancy sum equal to (\S+)", line)
+        if m:
+            cur_chain = (m.group(1), m.group(1)) if m.group(1) else (m.group(2), m.group(3))
+            chain_max[cur_chain] = float(m.group(4))
+            continue
+        m = re.match(r"\s+Clashes found (?:in residue (\S+)|between residues (\S+) and (\S+)) with maximum occupancy sum equal to (\S+)", line)
+        if m:
+            cur_res = (cur_chain, (m.group(1), m.group(1)) if m.group(1) else (m.group(2), m.group(3)))
+            res_max[cur_res] = float(m.group(4))
+            continue
+        m = re.match(r"\s+Clashes found between atoms (\S+) and (\S+) with occupancy sum of (\S+)", line)
+        if m:
+            atoms.append((cur_chain, cur_res, m.group(1), m.group(2), float(m.group(3))))
+    return chain_max, res_max, atoms
+
+
+def _report_cases(stdout, case, exprs, exps, cases):
+    """the listed atom clashes (in print order) through Model.Clash.group_max, against the printed per-residue / per-chain maxima"""
+    from fractions import Fraction
+    chain_max, res_max, atoms = _parse_report(stdout)
+    if not atoms or len(atoms) > 1500:
+        return
+    for which, keyof, printed in (("per-residue", lambda a: a[1], res_max), ("per-chain", lambda a: a[0], chain_max)):
+        ids, items = {}, []
+        for a in atoms:
+            k = keyof(a)
+            ids.setdefault(k, len(ids))
+            fr = Fraction(a[4])
+            items.append(f"(({ids[k]}%nat, {ids[k]}%nat), ({fr.numerator} # {fr.denominator})%Q)")
+        want = []
+        for k, i in ids.items():
+            fr = Fraction(printed[k]) if k in printed else None
+            want.append([i, i, fr.numerator, fr.denominator] if fr is not None else [i, i, None, None])
+        exprs.append("run_group_max [" + "; ".join(items) + "]")
+        exps.append(want)
+        cases.append(dict(case, aggregation=which, listed_clashes=len(atoms), keys=len(ids)))
 
 
 def check_report(stdout, csvp):
